@@ -7,6 +7,7 @@ MCNodes == {"A", "R", "B"}
 MCChunks == {"c1", "c2"}
 MCHolder == [n \in MCNodes |-> IF n = "B" THEN MCChunks ELSE {}]
 MCFunds == [n \in MCNodes |-> IF n = "A" THEN 2 ELSE IF n = "R" THEN 1 ELSE 0]
+MCRequesters == {"A", "R"}
 MCFundsRich == [n \in MCNodes |-> 6]
 AllFaults == {"noconn", "lose", "corrupt", "other", "wfail", "cifail"}
 \* direct, via the relay, relay first then direct, a non-holder as target, nothing
